@@ -116,6 +116,35 @@ def scenarios(mlr):
     add("split-g-unwritable-prefix", ["split", "-g", "a", "--prefix", "/nonexistent-dir/out", "in.dkvp"], {"in.dkvp": recs})
     add("case-missing-required-flag-control", ["tee"], {})
 
+    # --- a fan-out target that cannot be written (symlink to /dev/full), at every position among the targets:
+    # the failing file is closed by roll-over / eviction / end of stream depending on where it is
+    big = "".join("a=%d,b=%d\n" % (i % 3 + 1, i) for i in range(1, 2001))
+    for data, tag in ((recs, "small"), (big, "big")):
+        nrec = data.count("\n")
+        for bad in (1, 2, 4):
+            add("split-n-devfull-file%d-%s" % (bad, tag), None, {"in.dkvp": data}, key="split-n-devfull",
+                shell="ln -s /dev/full split_%d.dkvp; %s split -n %d in.dkvp" % (bad, mlr, max(1, nrec // 4)))
+            add("split-n-csv-devfull-file%d-%s" % (bad, tag), None, {"in.dkvp": data}, key="split-n-devfull",
+                shell="ln -s /dev/full split_%d.csv; %s --ocsv split -n %d in.dkvp" % (bad, mlr, max(1, nrec // 4)))
+        for bad in (1, 2):
+            add("split-m-devfull-file%d-%s" % (bad, tag), None, {"in.dkvp": data}, key="split-m-devfull",
+                shell="ln -s /dev/full split_%d.dkvp; %s split -m 2 in.dkvp" % (bad, mlr))
+    for bad in (1, 2, 3):
+        add("split-g-devfull-group%d" % bad, None, {"in.dkvp": big}, key="split-g-devfull",
+            shell="ln -s /dev/full split_%d.dkvp; %s split -g a in.dkvp" % (bad, mlr))
+        add("split-g-devfull-group%d-then-cat" % bad, None, {"in.dkvp": big}, key="split-g-devfull",
+            shell="ln -s /dev/full split_%d.dkvp; %s split -g a then put -q 'end{emit @x}' in.dkvp" % (bad, mlr))
+        add("dsl-tee-devfull-target%d" % bad, None, {"in.dkvp": big}, key="dsl-tee-devfull-target",
+            shell="ln -s /dev/full t%d.out; %s put -q 'tee > \"t\".$a.\".out\", $*' in.dkvp" % (bad, mlr))
+        add("dsl-print-devfull-target%d" % bad, None, {"in.dkvp": big}, key="dsl-print-devfull-target",
+            shell="ln -s /dev/full t%d.out; %s put -q 'print > \"t\".$a.\".out\", $b' in.dkvp" % (bad, mlr))
+        add("dsl-emit-devfull-target%d" % bad, None, {"in.dkvp": big}, key="dsl-emit-devfull-target",
+            shell="ln -s /dev/full t%d.out; %s put -q 'emit > \"t\".$a.\".out\", mapsum($*, {})' in.dkvp" % (bad, mlr))
+        add("dsl-tee-devfull-small-target%d" % bad, None, {"in.dkvp": recs}, key="dsl-tee-devfull-target",
+            shell="ln -s /dev/full t%d.out; %s put -q 'tee > \"t\".$a.\".out\", $*' in.dkvp" % (bad, mlr))
+    add("tee-verb-devfull-symlink-small", None, {"in.dkvp": recs}, shell="ln -s /dev/full t.out; %s tee t.out in.dkvp" % mlr)
+    add("tee-p-verb-failing-command", None, {"in.dkvp": big * 20}, shell="%s tee -p 'head -c 10 > /dev/null' in.dkvp > /dev/null" % mlr)
+
     # --- records the output format cannot express
     add("csv-schema-change", ["--ocsv", "put", "NR == 5 {unset $a; $z = 1}", "in.dkvp"], {"in.dkvp": recs})
     add("csv-schema-change-last", ["--ocsv", "put", "NR == 20 {unset $a; $z = 1}", "in.dkvp"], {"in.dkvp": recs})
